@@ -194,7 +194,33 @@ static int role_code(const char *p) {
 static const char *g_cur_path = NULL;  // set by callers (under g_mu) before fault_check
 
 // returns: 0 no fault; 1 fail with *err; 2 short write of *slen bytes
+// kill mode (environment only, for processes the harness does not share an address space with):
+// KVSHIM_KILL_AT=n makes the process die, as by SIGKILL, right BEFORE its n-th file-system call
+// under the root takes effect; with KVSHIM_KILL_TORN=1 a write is cut in half first. A note
+// "<n> <class> <role>" is left in KVSHIM_KILL_NOTE (a path outside the root).
+static long g_kill_at = 0;
+static int g_kill_torn = 0;
+static long g_fs_calls = 0;
+static char g_kill_note[1024];
+
+static void kill_note(int cls, const char *path) {
+  if (!g_kill_note[0]) return;
+  char b[256];
+  int n = snprintf(b, sizeof b, "%ld %d %d\n", g_fs_calls, cls, role_code(path));
+  int fd = (int)syscall(SYS_openat, AT_FDCWD, g_kill_note, O_CREAT | O_WRONLY | O_TRUNC, 0644);
+  if (fd >= 0) {
+    (void)!syscall(SYS_write, fd, b, (size_t)n);
+    syscall(SYS_close, fd);
+  }
+}
+
 static int fault_check(int cls, int *err, long *slen) {
+  g_fs_calls++;
+  if (g_kill_at > 0 && g_fs_calls == g_kill_at) {
+    kill_note(cls, g_cur_path);
+    if (g_kill_torn && cls == C_WRITE) return 3;  // the caller writes half, then dies
+    syscall(SYS_exit_group, 137);
+  }
   if (cls & g_count_classes) g_class_calls++;
   if (g_call_trace_n < TRACE_CAP) g_call_trace[g_call_trace_n] = cls | (role_code(g_cur_path) << 16);
   g_cur_path = NULL;
@@ -295,6 +321,12 @@ __attribute__((constructor)) static void kvshim_init(void) {
   if (rd) g_rand_mode = atoi(rd);
   const char *t0 = getenv("KVSHIM_RT_START_S");
   if (t0) g_rt_ns = atoll(t0) * 1000000000LL;
+  const char *ka = getenv("KVSHIM_KILL_AT");
+  if (ka) g_kill_at = atol(ka);
+  const char *kt = getenv("KVSHIM_KILL_TORN");
+  if (kt) g_kill_torn = atoi(kt);
+  const char *kn = getenv("KVSHIM_KILL_NOTE");
+  if (kn) snprintf(g_kill_note, sizeof g_kill_note, "%s", kn);
 }
 
 // ---------------------------------------------------------------------------------------------
@@ -395,6 +427,14 @@ static ssize_t do_write(int fd, const void *buf, size_t n, int64_t at_off, int p
   if (f == 1) {
     errno = err;
     return -1;
+  }
+  if (f == 3) {
+    size_t half = n / 2;
+    if (half > 0) {
+      if (positional) (void)!syscall(SYS_pwrite64, fd, buf, half, at_off);
+      else (void)!syscall(SYS_write, fd, buf, half);
+    }
+    syscall(SYS_exit_group, 137);
   }
   size_t want = n;
   if (f == 2) {
